@@ -583,6 +583,11 @@ func main() {
 		"being a Get/Remove/Put (the states in which the heap has been disturbed), lengths 5..80; every history of length <= 5 (quick) / 6 (thorough) "+
 		"over 2 keys at limit 1 and 2; a few histories with negative sizes and limit <= 0 (outside the property, compared with the model only). "+
 		"After every call: result, callback log, Len, Size, and through the hook the heap array, the key->offset map and the clock. "+
+		"Scale stream (B lines, macro operations, digests): caches of 2^k-1, 2^k, 2^k+1 entries for k = 1..12 (every size and every scenario up to 2^8+1; above, fewer lines as the "+
+		"model's replay is quadratic) under unit sizes with the limit equal to the number of entries or next to MaxInt64, value-dependent sizes (refused Puts on present and absent keys, "+
+		"zero-size entries, replacing Puts with larger and smaller values that evict), all-zero sizes, limit 1..2 with mostly zero-size entries, sizes v<<k filling a limit at or next to MaxInt64; "+
+		"each line: fill, Gets at both ends of every heap level, one disturbance (Remove run, Remove+Put, Get run, replacing run, mix), drain by Puts / one Put / Clear / Remove-to-an-eighth and regrow; "+
+		"one long history (more than 2^12 uses) on a cache of a few hundred entries. "+
 		"A case is non-trivial when it evicts or performs a Put/Get/Remove after a Remove; distinct = distinct input lines.",
 		exec, func(g *tr.G) {
 			if g.Prop == "C09" {
